@@ -9,6 +9,7 @@ import Ajson.Model.Decode
 import Ajson.Proofs.HeapBasics
 import Ajson.Proofs.WFInv
 import Ajson.Proofs.DecodeStruct
+import Ajson.Proofs.Acyclic
 
 namespace Ajson.Props.C06
 open Ajson Ajson.Heap
@@ -135,6 +136,33 @@ theorem C06_parsed_is_sound (data : Bytes) (v : Spec.STree) (hp : Spec.parseRef 
 theorem C06_parsed_is_sound_on_heap {h : Heap} (hs : Proofs.Struct h) (ho : Proofs.HeapOrd h) (data : Bytes) (v : Spec.STree)
     (hp : Spec.parseRef data = .ok v) : ∃ H, unmarshalIn h data = .ok (H, h.size) ∧ Proofs.Struct H :=
   Proofs.struct_unmarshalIn hs ho data v hp
+
+/-! ### no node is its own ancestor -/
+
+/-- **the loop guard is exact**: on a sound acyclic heap `isParentOrSelfNode n x` answers yes exactly when x is n or one of its
+ancestors (a parent chain has fewer links than there are nodes, so the guard's bounded walk sees all of them) — every request
+that would close a cycle is rejected, and no other request is -/
+theorem C06_loop_guard_exact {h : Heap} (hs : Proofs.Struct h) (ha : Proofs.Acyc h) (n : Nat) (hn : n < h.size) (x : Id) :
+    h.isParentOrSelfNode n x = true ↔ Proofs.Anc h x n := Proofs.loop_guard_exact hs ha n hn x
+
+/-- every parsed document is sound and acyclic -/
+theorem C06_parsed_acyclic (data : Bytes) (v : Spec.STree) (hp : Spec.parseRef data = .ok v) :
+    ∃ H, unmarshal data = .ok (H, 0) ∧ Proofs.Struct H ∧ Proofs.Acyc H := Proofs.acyc_unmarshal data v hp
+
+/-- deletions, the scalar setters and `mark` only cut parent links; the appends that pass the guard add a link that closes no cycle -/
+theorem C06_acyclic_remove {h : Heap} (ha : Proofs.Acyc h) (n value : Id) : Proofs.Acyc (h.remove n value).1 := Proofs.acyc_remove ha n value
+
+theorem C06_acyclic_set_scalar {h : Heap} (hs : Proofs.Struct h) (ha : Proofs.Acyc h) (n : Nat) (hn : n < h.size) (v : SetVal)
+    (hv : v.type.isContainer = false) : Proofs.Acyc (h.update (some n) v).1 := Proofs.acyc_update_scalar hs ha n hn v hv
+
+theorem C06_acyclic_append_object {h : Heap} (hs : Proofs.Struct h) (ha : Proofs.Acyc h) (n value : Nat) (hn : n < h.size) (hv : value < h.size)
+    (hobj : (h.get n).type = .object) (hloop : h.isParentOrSelfNode n value = false) (hroot : (h.get value).parent = none)
+    (k : Bytes) (hfresh : (h.childMap n).lookup k = none) : Proofs.Acyc (h.appendObject n k value).1 :=
+  Proofs.acyc_appendObject_fresh hs ha n value hn hv hobj hloop hroot k hfresh
+
+theorem C06_acyclic_append_array {h : Heap} (hs : Proofs.Struct h) (ha : Proofs.Acyc h) (n value : Nat) (hn : n < h.size) (hv : value < h.size)
+    (harr : (h.get n).type = .array) (hloop : h.isParentOrSelfNode n value = false) (hroot : (h.get value).parent = none) :
+    Proofs.Acyc (h.appendArray n [value]).1 := Proofs.acyc_appendArray_one hs ha n value hn hv harr hloop hroot
 
 /-- non-vacuity: a parsed document and a document built by constructors and mutators are well formed -/
 example : (match unmarshal "{\"a\":[1,{\"b\":null}],\"a\":2,\"c\":\"x\"}".toUTF8.toList with
